@@ -5,6 +5,7 @@ package stream
 
 import (
 	"bytes"
+	"math"
 
 	"github.com/blugelabs/bluge/numeric"
 
@@ -97,14 +98,14 @@ func c08TreeNode(vals map[string]int64, depth int) (*modelv1.Criteria, bool) {
 // unindexed tag, and every row, if the row satisfies the criteria then the filter tree does not
 // rule out the block that holds just this row - even against the most selective filter data a
 // block can carry (exact membership, min = max = the value).
-// bound: criteria trees of depth <= 1 (thorough <= 2) over conditions = | != | > | <= with literals from {7,-1,0} on tags t, u (SKIPPING) and w (unindexed); arbitrary int64 row values
+// bound: criteria trees of depth <= 1 over conditions = | != | > | <= with literals from {7,-1,0} (thorough also MaxInt64, MinInt64) on tags t, u (SKIPPING) and w (unindexed); arbitrary int64 row values
 func VerifH_C08_BlockFilterTreeIsSound() {
 	vals := map[string]int64{"t": zzverif.Int64("t"), "u": zzverif.Int64("u"), "w": zzverif.Int64("w")}
-	depth := 1
+	c08TreeLits = []int64{7, -1, 0}
 	if zzverif.Thorough() {
-		depth = 2
+		c08TreeLits = []int64{7, -1, 0, math.MaxInt64, math.MinInt64}
 	}
-	criteria, want := c08TreeNode(vals, depth)
+	criteria, want := c08TreeNode(vals, 1)
 	sm := &databasev1.Stream{
 		Metadata: &commonv1.Metadata{Name: "s", Group: "g"},
 		TagFamilies: []*databasev1.TagFamilySpec{{Name: "tf", Tags: []*databasev1.TagSpec{
